@@ -588,7 +588,8 @@ func addTransceiverSDP(
 		// validation failed.
 		// In addition this makes our SDP compliant with RFC 4566 Section 5.7:
 		// https://datatracker.ietf.org/doc/html/rfc4566#section-5.7
-		descr.WithMedia(&sdp.MediaDescription{
+		// The rejected section keeps its mid: it still answers the offered section of that mid.
+		descr.WithMedia((&sdp.MediaDescription{
 			MediaName: sdp.MediaName{
 				Media:   transceiver.kind.String(),
 				Port:    sdp.RangedPort{Value: 0},
@@ -602,7 +603,7 @@ func addTransceiverSDP(
 					Address: "0.0.0.0",
 				},
 			},
-		})
+		}).WithValueAttribute(sdp.AttrKeyMID, midValue))
 
 		return false, nil
 	}
